@@ -3,16 +3,27 @@
 // goleveldb memory storage (binding A). After every operation the raw store is read back
 // through goleveldb itself (not through the code under test) and returned together with
 // the reply of the call.
+//
+// Objects: an operation names the object it goes through: "kept" = the one prefix storage
+// object per prefix that lives for the whole walk / history, "fresh" = a new one made for
+// this call. Sizes: Fill(p, n) writes the n filler keys p ++ {02 hi lo} through the object
+// in one batch; the model keeps them as one run, so stores and Iter replies are returned
+// with the fillers folded into runs [key p ++ {02}, value, from, to] (consecutive filler
+// numbers of one prefix with one value, in visiting order).
 package c25
 
 import (
 	"encoding/json"
 	"fmt"
+	"os"
+	"runtime/pprof"
 	"time"
 
 	"github.com/pkg/errors"
 	"github.com/spikeekips/mitum/storage"
 	leveldbstorage "github.com/spikeekips/mitum/storage/leveldb"
+	leveldbOpt "github.com/syndtr/goleveldb/leveldb/opt"
+	leveldbStorage "github.com/syndtr/goleveldb/leveldb/storage"
 	leveldbutil "github.com/syndtr/goleveldb/leveldb/util"
 
 	"mitumverif/internal/h"
@@ -27,6 +38,8 @@ var errHang = errors.New("call did not return")
 type op struct {
 	A    string          `json:"a"`
 	P    []int           `json:"p"`
+	O    string          `json:"o"` // "kept" (default) | "fresh"
+	N    int             `json:"n"` // Fill: number of filler keys
 	K    []int           `json:"k"`
 	V    int             `json:"v"`
 	S    []int           `json:"s"`
@@ -38,8 +51,9 @@ type op struct {
 }
 
 type step struct {
-	New    int             `json:"new"`   // 1: first step of a walk (fresh store)
+	New    int             `json:"new"`    // 1: first step of a walk (fresh store)
 	Single int             `json:"single"` // 1: independent case: store := pre, closed := closed, then the operation
+	Init   int             `json:"init"`   // 1: first step of a history: store := pre (written with goleveldb itself)
 	Op     op              `json:"op"`
 	Pre    [][]interface{} `json:"pre"`
 	Closed [][]int         `json:"closed"`
@@ -92,16 +106,102 @@ func unval(b []byte) int {
 	return -1
 }
 
+const fillerByte = 2
+
+// filler reports whether k is a filler key (.. 02 hi lo; no other key of the model holds the byte 02)
+// and returns the key of its run (.. 02) and its number
+func filler(k []byte) ([]byte, int, bool) {
+	n := len(k)
+	if n < 3 || k[n-3] != fillerByte {
+		return nil, 0, false
+	}
+	return k[:n-2], int(k[n-2])<<8 | int(k[n-1]), true
+}
+
+func fillerKey(run []byte, i int) []byte {
+	k := make([]byte, 0, len(run)+2)
+	k = append(k, run...)
+	return append(k, byte(i>>8), byte(i))
+}
+
+// folder collects visited entries and folds consecutive fillers of one run into [run key, value, from, to]
+type folder struct {
+	out  [][]interface{}
+	run  []byte
+	v    int
+	from int
+	to   int
+	open bool
+	n    int // entries seen
+}
+
+func (f *folder) flush() {
+	if f.open {
+		f.out = append(f.out, []interface{}{ints(f.run), f.v, f.from, f.to})
+		f.open = false
+	}
+}
+
+func (f *folder) add(k, b []byte) {
+	f.n++
+	v := unval(b)
+	run, i, ok := filler(k)
+	if !ok {
+		f.flush()
+		f.out = append(f.out, []interface{}{ints(k), v})
+		return
+	}
+	if f.open && string(run) == string(f.run) && v == f.v {
+		switch {
+		case f.to == f.from && (i == f.to+1 || i == f.to-1),
+			f.to > f.from && i == f.to+1,
+			f.to < f.from && i == f.to-1:
+			f.to = i
+			return
+		}
+	}
+	f.flush()
+	f.run, f.v, f.from, f.to, f.open = append([]byte{}, run...), v, i, i, true
+}
+
+func (f *folder) done() [][]interface{} {
+	f.flush()
+	if f.out == nil {
+		return [][]interface{}{}
+	}
+	return f.out
+}
+
 type world struct {
 	st     *leveldbstorage.Storage
 	stores map[string]*leveldbstorage.PrefixStorage
 }
 
+// newWorld opens a store over goleveldb memory storage. A history / walk writes some ten thousand
+// bytes: a small write buffer (goleveldb's default is 4 MiB, allocated and cleared per store) makes a
+// store per history affordable, so that the deleted versions of earlier histories, which goleveldb
+// keeps and its iterators walk over, do not pile up.
 func newWorld() *world {
-	return &world{st: leveldbstorage.NewMemStorage(), stores: map[string]*leveldbstorage.PrefixStorage{}}
+	st, err := leveldbstorage.NewStorage(leveldbStorage.NewMemStorage(), &leveldbOpt.Options{
+		WriteBuffer:            64 << 10,
+		BlockCacheCapacity:     64 << 10,
+		DisableSeeksCompaction: true,
+	})
+	if err != nil {
+		panic(err)
+	}
+	return &world{st: st, stores: map[string]*leveldbstorage.PrefixStorage{}}
 }
 
 func (w *world) close() { _ = w.st.Close() }
+
+// obj returns the object an operation goes through
+func (w *world) obj(o op) *leveldbstorage.PrefixStorage {
+	if o.O == "fresh" {
+		return leveldbstorage.NewPrefixStorage(w.st, bs(o.P))
+	}
+	return w.store(o.P)
+}
 
 func (w *world) store(p []int) *leveldbstorage.PrefixStorage {
 	k := fmt.Sprint(p)
@@ -115,13 +215,13 @@ func (w *world) store(p []int) *leveldbstorage.PrefixStorage {
 
 // dump reads the raw store with goleveldb's own iterator
 func (w *world) dump() [][]interface{} {
-	out := [][]interface{}{}
+	var f folder
 	it := w.st.DB().NewIterator(nil, nil)
 	defer it.Release()
 	for it.Next() {
-		out = append(out, []interface{}{ints(it.Key()), unval(it.Value())})
+		f.add(it.Key(), it.Value())
 	}
-	return out
+	return f.done()
 }
 
 // reset empties the raw store and forgets the prefix storages (goleveldb calls only)
@@ -139,7 +239,16 @@ func (w *world) reset(pre [][]interface{}, closed [][]int) error {
 	}
 	w.stores = map[string]*leveldbstorage.PrefixStorage{}
 	for _, kv := range pre {
-		if err := w.st.DB().Put(bs(anyInts(kv[0])), val(int(kv[1].(float64))), nil); err != nil {
+		k, v := bs(anyInts(kv[0])), val(int(kv[1].(float64)))
+		if len(kv) == 4 { // a run of fillers
+			for i := int(kv[2].(float64)); i <= int(kv[3].(float64)); i++ {
+				if err := w.st.DB().Put(fillerKey(k, i), v, nil); err != nil {
+					return err
+				}
+			}
+			continue
+		}
+		if err := w.st.DB().Put(k, v, nil); err != nil {
 			return err
 		}
 	}
@@ -165,9 +274,9 @@ func reply(err error) (interface{}, string) {
 func (w *world) do(o op, res *result) {
 	switch o.A {
 	case "Put":
-		res.Res, res.Err = reply(w.store(o.P).Put(bs(o.K), val(o.V), nil))
+		res.Res, res.Err = reply(w.obj(o).Put(bs(o.K), val(o.V), nil))
 	case "Get":
-		b, found, err := w.store(o.P).Get(bs(o.K))
+		b, found, err := w.obj(o).Get(bs(o.K))
 		if err != nil {
 			res.Res, res.Err = reply(err)
 			return
@@ -178,7 +287,7 @@ func (w *world) do(o op, res *result) {
 			res.Res = []int{0, 0}
 		}
 	case "Exists":
-		found, err := w.store(o.P).Exists(bs(o.K))
+		found, err := w.obj(o).Exists(bs(o.K))
 		if err != nil {
 			res.Res, res.Err = reply(err)
 			return
@@ -189,17 +298,18 @@ func (w *world) do(o op, res *result) {
 			res.Res = 0
 		}
 	case "Delete":
-		res.Res, res.Err = reply(w.store(o.P).Delete(bs(o.K), nil))
+		res.Res, res.Err = reply(w.obj(o).Delete(bs(o.K), nil))
 	case "Iter":
 		var r *leveldbutil.Range
 		if s, l := bs(o.S), bs(o.L); s != nil || l != nil {
 			r = &leveldbutil.Range{Start: s, Limit: l}
 		}
-		seen := [][]interface{}{}
-		err := w.store(o.P).Iter(r, func(k, v []byte) (bool, error) {
-			seen = append(seen, []interface{}{ints(k), unval(v)})
-			return o.Stop == 0 || len(seen) < o.Stop, nil
+		var f folder
+		err := w.obj(o).Iter(r, func(k, v []byte) (bool, error) {
+			f.add(k, v)
+			return o.Stop == 0 || f.n < o.Stop, nil
 		}, o.Asc)
+		seen := f.done()
 		if err != nil {
 			res.Res, res.Err = reply(err)
 			if len(seen) > 0 {
@@ -209,7 +319,7 @@ func (w *world) do(o op, res *result) {
 		}
 		res.Res = seen
 	case "Batch":
-		s := w.store(o.P)
+		s := w.obj(o)
 		b := s.NewBatch()
 		for _, e := range o.B {
 			switch e[0].(string) {
@@ -220,10 +330,17 @@ func (w *world) do(o op, res *result) {
 			}
 		}
 		res.Res, res.Err = reply(s.Batch(b, nil))
+	case "Fill":
+		s := w.obj(o)
+		b := s.NewBatch()
+		for i := 0; i < o.N; i++ {
+			b.Put(fillerKey([]byte{fillerByte}, i), val(1))
+		}
+		res.Res, res.Err = reply(s.Batch(b, nil))
 	case "Remove":
-		res.Res, res.Err = reply(w.store(o.P).Remove())
+		res.Res, res.Err = reply(w.obj(o).Remove())
 	case "Close":
-		res.Res, res.Err = reply(w.store(o.P).Close())
+		res.Res, res.Err = reply(w.obj(o).Close())
 	case "RawPut":
 		res.Res, res.Err = reply(w.st.Put(bs(o.K), val(o.V), nil))
 	case "RemoveByPrefix":
@@ -245,6 +362,11 @@ func (w *world) do(o op, res *result) {
 }
 
 func run(args []string) error {
+	if pp := os.Getenv("C25_PPROF"); pp != "" {
+		f, _ := os.Create(pp)
+		_ = pprof.StartCPUProfile(f)
+		defer pprof.StopCPUProfile()
+	}
 	fl := h.Flags(args)
 	out, err := h.NewOut(fl["out"])
 	if err != nil {
@@ -279,6 +401,10 @@ func run(args []string) error {
 				w = newWorld()
 			}
 			if err := w.reset(st.Pre, st.Closed); err != nil {
+				return err
+			}
+		} else if st.Init == 1 {
+			if err := w.reset(st.Pre, nil); err != nil {
 				return err
 			}
 		}
